@@ -38,6 +38,7 @@ def summarize(prop, fixed, gen):
     nontriv = 0
     mine, others, harness, known = [], collections.Counter(), [], collections.Counter()
     steps_total = 0
+    routes, route_checked = [], 0
     for r in list(fixed) + list(gen):
         prog = r["program"]
         sig = []
@@ -52,6 +53,10 @@ def summarize(prop, fixed, gen):
                 nontriv += 1
         for k in r.get("known", []):
             known[f"{k[0]}: {k[1]}"] += 1
+        route_checked += r.get("stats", {}).get("route_checked", 0)
+        for m in r.get("route_mismatches", []):
+            if route_owner(m, prog) in (prop, "*") or prop in ("C13", "C20"):
+                routes.append((m, prog))
         for f in r["findings"]:
             if f[0] == prop:
                 mine.append((f, prog))
@@ -60,7 +65,17 @@ def summarize(prop, fixed, gen):
             else:
                 others[f[0]] += 1
     return {"cells": cells, "distinct_nontrivial": nontriv, "mine": mine, "others": others, "harness": harness,
-            "known": known, "steps_total": steps_total, "programs": len(fixed) + len(gen)}
+            "known": known, "steps_total": steps_total, "programs": len(fixed) + len(gen), "routes": routes,
+            "route_checked": route_checked}
+
+
+def route_owner(m, prog):
+    """which property's tie a routing mismatch belongs to (by the kind of the call)"""
+    k, what = m.get("kind"), m.get("what")
+    if k == "op":
+        st = prog["steps"][m["step"]] if 0 <= m.get("step", -1) < len(prog["steps"]) else {}
+        return "C03" if len(st.get("targets", [])) > 1 else "C01"
+    return {"kraus": "C06", "povm": "C09", "measure": "C05", "trace_out": "C02", "resize": "C10", "struct": "C02"}.get(k, "*")
 
 
 def load_corpus(prop):
@@ -143,6 +158,10 @@ def run_program_check(prop, tier, seed):
         print(line)
     fixed, gen = program_campaign(prop, seed, cfg["programs"], cfg["steps"], extra_programs=load_corpus(prop))
     S = summarize(prop, fixed, gen)
+    if S["routes"]:
+        m, prog = S["routes"][0]
+        tie_problems.append(f"routing correspondence: {len(S['routes'])} call(s) leave a partition / member order that differs from the model PW.Routing, e.g. {m.get('kind')}:{m.get('what')} via {m.get('entry')}: model {m.get('model')} implementation {m.get('impl')}")
+        print(f"[{prop}] correspondence (routing model) BROKEN in {len(S['routes'])} call(s): {str(m.get('model'))[:120]} vs {str(m.get('impl'))[:120]}")
     if tie_problems and not S["mine"]:
         # broken tie: search harder for a failing input before giving up
         print(f"[{prop}] tie broken, searching for a failing input ...")
@@ -163,7 +182,8 @@ def run_program_check(prop, tier, seed):
         print(f"VIOLATION property={prop} replay={path}")
         violations = len(S["mine"])
     elif tie_problems:
-        path = CL.write_replay(prop, {"property": prop, "broken": tie_problems, "note": "no failing input found; the property is no longer shown to hold"})
+        path = CL.write_replay(prop, {"property": prop, "broken": tie_problems, "note": "no failing input found; the property is no longer shown to hold",
+                                      "routing_example": ({"mismatch": S["routes"][0][0], "program": S["routes"][0][1]} if S["routes"] else None)})
         print(f"VIOLATION property={prop} replay={path} no-failing-input-found")
         violations = 1
     wall = time.time() - t0
@@ -182,6 +202,8 @@ def run_program_check(prop, tier, seed):
         "known_finding_cells_hit": dict(S["known"]),
         "harness_errors": len(S["harness"]),
         "einsum_strings_compared": (es or {}).get("cases", 0),
+        "routing_calls_compared": S["route_checked"],
+        "routing_mismatches": len(S["routes"]),
         "proof_problems": tie_problems,
         "corpus_programs": len(fixed),
     }
